@@ -12,3 +12,37 @@ package lnd
 //@ ensures @C24 dest: result1 == nil ==> decoded.Destination == channel.RemotePubkey
 //@ ensures @C24 single: result1 == nil ==> (result0 != nil && result0.MaxParts == 1 && result0.PaymentRequest == payreq && len(result0.OutgoingChanIds) == 1 && result0.OutgoingChanIds[0] == channel.ChanId && result0.Amt == 0 && result0.AmtMsat == 0)
 //@ ensures @C24 err-nil: result1 != nil ==> result0 == nil
+
+// ---------------------------------------------------------------------------
+// C20 / C05 (LND chain notifier): a confirmation is reported to the swap only
+// while fewer than BitcoinCsvSafetyLimit (504) blocks have been mined on top of
+// the confirmation height; CSV maturity only once 1008 blocks (the script's
+// CSV) have passed, counted from the first confirmation.
+// ---------------------------------------------------------------------------
+//@ ghost lndTip uint32
+//@ ghost lndBlock uint32
+
+//@ func (*TxWatcher).GetBlockHeight
+//@ sets ghost.lndTip = result0
+
+//@ callback TxWatcher.confirmationCallback
+//@ requires @C20,C05,in:confChan below-safety-limit: (err == nil && ghost.lndTip < 4294967295 && mi(ghost.lndTip) + 1 >= mi(lastrecv(confChan).blockHeight)) ==> mi(ghost.lndTip) - mi(lastrecv(confChan).blockHeight) + 1 < 504
+//@ assigns nothing
+
+//@ func (*TxWatcher).AddWaitForConfirmationTx$1
+//@ property C20 C05
+//@ requires t != nil
+
+// block epochs delivered by lnd (dependency type; assumed: any heights, any errors)
+//@ interface chainrpc.ChainNotifier_RegisterBlockEpochNtfnClient.Recv
+//@ ensures (result1 == nil && result0 != nil) ==> ghost.lndBlock == result0.Height
+//@ assigns ghost.lndBlock
+
+// CSV maturity (maker side): 1008 blocks counted from the confirmation height
+//@ callback TxWatcher.csvPassedCallback
+//@ requires @C20,in:ctx csv-deep: (ghost.lndBlock < 4294967295 && mi(ghost.lndBlock) + 1 >= mi(lastrecv(confChan).blockHeight)) ==> mi(ghost.lndBlock) - mi(lastrecv(confChan).blockHeight) + 1 >= 1008
+//@ assigns nothing
+
+//@ func (*TxWatcher).AddWaitForCsvTx$1
+//@ property C20
+//@ requires t != nil
